@@ -12,8 +12,13 @@ CONSTANTS
   LongPre <- PreLong
   LongItems <- ItemsLong
   LongMax = 70
+  FocusNames <- NoNames
+  FocusPre <- PreFocus
+  FocusItems <- ItemsFocus
+  FocusMax = 4
   FixO1 = TRUE
   FixRetry = FALSE
+  FixRetryList = FALSE
   MaxTried = 64
 INVARIANTS Q1r
 VIEW MCView
